@@ -271,6 +271,7 @@ int main(int argc, char** argv) {
     tf.push_back(fam::make_LW());
     tf.push_back(fam::make_LX(lxbase, quick ? 3 : 4));
     tf.push_back(fam::make_LN());
+    tf.push_back(fam::make_LU());
   } else if (prop == "C03") {
     tf.push_back(fam::make_LA(quick ? 7 : 8));
     tf.push_back(fam::make_LA1(quick ? 5 : 6));
@@ -282,6 +283,7 @@ int main(int argc, char** argv) {
     tf.push_back(fam::make_LW());
     tf.push_back(fam::make_LX(lxbase, quick ? 3 : 4));
     tf.push_back(fam::make_LN());
+    tf.push_back(fam::make_LU());
   } else if (prop == "C02") {
     tf.push_back(fam::make_L0(quick ? 4 : 5));
     tf.push_back(fam::make_LA(quick ? 5 : 6));
